@@ -336,7 +336,8 @@ Record rmon := mk_rmon {
   q_done : bool;    (* a block shorter than blksize was accepted *)
   q_unacked : N;    (* blocks accepted since the last acknowledgement *)
   q_fails : N;      (* consecutive failed receives *)
-  q_prefixes : list (N * N) (* fingerprints of the file after each accepted block, latest first *)
+  q_prefixes : list (N * N); (* fingerprints of the file after each accepted block, latest first *)
+  q_wfails : N      (* receives since the last completed window that were neither DATA nor ERROR (what the loop counts) *)
 }.
 
 Record rverdict := mk_rverdict { u_c02 : bool; u_c07 : bool; u_c08 : bool; u_c16 : bool; u_c13 : bool; u_c04 : bool }.
@@ -399,10 +400,11 @@ Section RecvMonitor.
         if acc then
           let h := fnv_extend (q_hash m) payload in
           let len := q_len m + lenN payload in
-          mk_rmon (q_cnt m + 1) len h (lenN payload <? blk) (q_unacked m + 1) 0 ((len, h) :: q_prefixes m)
+          mk_rmon (q_cnt m + 1) len h (lenN payload <? blk) (q_unacked m + 1) 0 ((len, h) :: q_prefixes m) (q_wfails m)
         else
           mk_rmon (q_cnt m) (q_len m) (q_hash m) (q_done m) (q_unacked m)
-                  (match m_raw e with None => q_fails m + 1 | Some _ => q_fails m end) (q_prefixes m) in
+                  (match m_raw e with None => q_fails m + 1 | Some _ => q_fails m end) (q_prefixes m)
+                  (match dat with Some _ => q_wfails m | None => if err then q_wfails m else q_wfails m + 1 end) in
       match ack_emissions (S (length b)) b with
       | None => mk_rverdict true true true false true true
       | Some ems =>
@@ -426,7 +428,7 @@ Section RecvMonitor.
            else (negb (retry_budget <=? q_fails m1) || is_last)
                 && (negb is_last || match ending with EndOk => false | _ => true end)) in
         let m2 := mk_rmon (q_cnt m1) (q_len m1) (q_hash m1) (q_done m1) (if acked then 0 else q_unacked m1)
-                          (q_fails m1) (q_prefixes m1) in
+                          (q_fails m1) (q_prefixes m1) (if acc && acked then 0 else q_wfails m1) in
         (* C04: a block that was already acknowledged arrives again while nothing is buffered (the sender
            did not get our ACK): the ACK must be repeated, otherwise a single lost ACK fails the upload *)
         let dup_of_acked := match dat with
@@ -434,7 +436,9 @@ Section RecvMonitor.
                                              && (let k := lift16 (q_cnt m + 1 - N.min (q_cnt m) 65535) n in k <=? q_cnt m)
                             | None => false
                             end in
-        let c04 := negb dup_of_acked || acked in
+        (* ... and the loop may give up only after [retry_budget] receives without DATA since the last completed window *)
+        let gave_up := is_last && match ending with EndTimeout => true | _ => false end in
+        let c04 := (negb dup_of_acked || acked) && (negb gave_up || (retry_budget <=? q_wfails m1)) in
         let v := mk_rverdict c02 c07 c08 true true c04 in
         if is_last then
           (* C13: what is left on disk *)
@@ -467,7 +471,7 @@ Section RecvMonitor.
         let v0 := mk_rverdict (match b0 with [] => true | _ => false end) true true true true true in
         match bs with
         | [] => v0
-        | _ => uand v0 (rmon_run (mk_rmon 0 0 fnv_init false 0 0 []) (pad_events evs tmo (length bs)) bs ending final)
+        | _ => uand v0 (rmon_run (mk_rmon 0 0 fnv_init false 0 0 [] 0) (pad_events evs tmo (length bs)) bs ending final)
         end
       end
     end.
